@@ -357,6 +357,9 @@ def t_float(I, args, kw, node):
         raise _sx().SymRaise(ValueError, "float() literal")
     if v is None or isinstance(v, (list, tuple, dict, SObj, SOpaque)):
         raise _sx().SymRaise(TypeError, "float() of %s" % type(v).__name__)
+    if not hasattr(type(v), "__float__") and not hasattr(type(v), "__index__"):
+        # a real object without numeric conversion (PSLiteral, PSKeyword, ...): native semantics
+        raise _sx().SymRaise(TypeError, "float() of %s" % type(v).__name__)
     raise SymError("float() of %s" % type(v).__name__)
 
 
@@ -505,7 +508,11 @@ def t_array(I, args, kw, node):
 
 import array as _array
 
-TYPES = {_array.array: t_array, int: t_int, float: t_float, bool: t_bool, bytes: t_bytes, list: t_list, tuple: t_tuple,
+def t_frozenset(I, args, kw, node):
+    return frozenset(t_set(I, args, kw, node))
+
+
+TYPES = {frozenset: t_frozenset, _array.array: t_array, int: t_int, float: t_float, bool: t_bool, bytes: t_bytes, list: t_list, tuple: t_tuple,
          set: t_set, dict: t_dict, str: t_str, range: b_range, enumerate: b_enumerate, zip: b_zip,
          reversed: b_reversed, object: t_object}
 
